@@ -5,5 +5,6 @@ From Verif Require Import Lib.Bytes Gen.GenNetworks Model.Wire Model.AddrScript.
 Extraction Language OCaml.
 Extraction "../ocaml/c05_model.ml" bz zb all_networks nw_name find_network
   spec_lock_script spec_classify spec_address standard standard_wide stype_name
-  lib_deserialize lib_address_new lib_address_parse lib_hd_address_obj
-  lib_output lib_script_new lib_get_script_types lib_script_parse.
+  lib_deserialize lib_address_new lib_address_parse lib_hd_address_obj lib_key_address_obj lib_address_of_data
+  lib_output lib_reparse lib_script_new lib_get_script_types lib_script_parse
+  lib_to_bytes hexlike tb fx_orig fx_all fx_now.
